@@ -20,7 +20,7 @@ package markbits
 //@ func NewMarkBitsManager
 //@   property C35
 //@   option opaque rank32, popcount32
-//@   uses rank32_zero(markMask), rank32_step(markMask), rank32_full(markMask), rank32_le(markMask), rank32_mono(markMask)
+//@   uses rank32_zero(markMask), rank32_step(markMask), rank32_full(markMask), rank32_le(markMask)
 //@   ensures res != nil && fresh(res)
 //@   ensures res.mask == markMask && res.numBitsAllocated == 0 && res.numFreeBits == int(popcount32(markMask))
 //@   ensures mbInv(res)
@@ -117,7 +117,7 @@ package markbits
 //@   assigns nothing
 //@   loop 1 invariant shift < 32 && numBitsFound == rank32(mc.mask, shift) && mark & mc.mask == mark
 //@   loop 1 invariant 0 <= number && number <= 0xffffffff && uint32(number) & lowmask32(uint(numBitsFound)) == uint32(number)
-//@   loop 1 uses add_pow2_is_or(number, numBitsFound)
+//@   loop 1 uses add_pow2_is_or(number, numBitsFound), or_bit_at_ranks(uint32(number), numBitsFound, mc.mask)
 //@   loop 1 invariant forall s uint in 0..32 :: s < shift && bit32(mc.mask, s) ==> (bit32(mark, s) <==> bit32(uint32(number), uint(rank32(mc.mask, s))))
 //@   loop 1 split shift in 0..31
 //@   option split-post 2, 3
